@@ -533,6 +533,169 @@ def ladder(tree):
     return res
 
 
+# -- caller-thread paths -------------------------------------------------------
+# (1) session guards: public Transport methods that start with
+#     `if <bool expr over self.active / self.initial_kex_done>: raise SSHException(..)`
+# (2) sites that decode bytes as text (`u(..)`, `.decode(..)` without an error policy, get_text,
+#     get_list) in functions reachable from the public API without going through run():
+#     nothing catches a UnicodeDecodeError there on the application's behalf.
+
+API_FILES = ["transport.py", "auth_handler.py", "channel.py", "client.py", "packet.py"]
+API_CLASSES = {"Transport", "ServiceRequestingTransport", "SSHClient", "Channel", "AuthHandler", "AuthOnlyHandler"}
+UNICODE_CATCHERS = {"UnicodeError", "UnicodeDecodeError", "ValueError", "Exception", "BaseException"}
+SSH_RAISES = {"SSHException", "AuthenticationException", "BadAuthenticationType", "IncompatiblePeer"}
+
+
+def _guard_expr(test):
+    """Python bool expr over self.active / self.initial_kex_done -> Coq expr over (active kex_done)."""
+    if isinstance(test, ast.BoolOp):
+        op = " || " if isinstance(test.op, ast.Or) else " && "
+        return "(" + op.join(_guard_expr(v) for v in test.values) + ")"
+    if isinstance(test, ast.UnaryOp) and isinstance(test.op, ast.Not):
+        return "(negb %s)" % _guard_expr(test.operand)
+    if isinstance(test, ast.Attribute) and isinstance(test.value, ast.Name) and test.value.id == "self":
+        if test.attr == "active":
+            return "active"
+        if test.attr == "initial_kex_done":
+            return "kex_done"
+    raise Fail("session guard: unrecognised test " + ast.unparse(test))
+
+
+def session_guards(repo):
+    mod = ast.parse(open(os.path.join(repo, "paramiko", "transport.py")).read())
+    out = []
+    for c in mod.body:
+        if not (isinstance(c, ast.ClassDef) and c.name in ("Transport", "ServiceRequestingTransport")):
+            continue
+        for fn in c.body:
+            if not isinstance(fn, ast.FunctionDef):
+                continue
+            for s in fn.body:
+                if isinstance(s, ast.Expr) and isinstance(s.value, ast.Constant):
+                    continue          # docstring
+                mentions_kex = any(isinstance(n, ast.Attribute) and n.attr == "initial_kex_done" for n in ast.walk(s))
+                if isinstance(s, ast.If) and mentions_kex and len(s.body) == 1 and isinstance(s.body[0], ast.Raise):
+                    exc = s.body[0].exc
+                    if not (isinstance(exc, ast.Call) and isinstance(exc.func, ast.Name) and exc.func.id in SSH_RAISES):
+                        raise Fail("%s.%s: session guard does not raise an SSHException" % (c.name, fn.name))
+                    out.append(("%s.%s" % (c.name, fn.name), _guard_expr(s.test)))
+                break
+    names = [n for n, _ in out]
+    for need in ("Transport.get_remote_server_key", "Transport.auth_password", "Transport.auth_publickey"):
+        if need not in names:
+            raise Fail("no session guard found at the top of %s" % need)
+    return out
+
+
+def _functions(repo):
+    """-> {name: [(file, class, FunctionDef)]} over API_FILES."""
+    idx = {}
+    for f in API_FILES:
+        mod = ast.parse(open(os.path.join(repo, "paramiko", f)).read())
+        for c in mod.body:
+            if isinstance(c, ast.ClassDef):
+                for fn in c.body:
+                    if isinstance(fn, ast.FunctionDef):
+                        idx.setdefault(fn.name, []).append((f, c.name, fn))
+            elif isinstance(c, ast.FunctionDef):
+                idx.setdefault(c.name, []).append((f, "", c))
+    return idx
+
+
+def _callees(fn):
+    out = set()
+    for n in ast.walk(fn):
+        if isinstance(n, ast.Call):
+            if isinstance(n.func, ast.Attribute):
+                out.add(n.func.attr)
+            elif isinstance(n.func, ast.Name):
+                out.add(n.func.id)
+    return out
+
+
+def _decode_sites(fn):
+    """Calls inside fn that decode bytes as text and can raise UnicodeDecodeError; with `guarded`."""
+    parents = {}
+    for n in ast.walk(fn):
+        for ch in ast.iter_child_nodes(n):
+            parents[id(ch)] = n
+    sites = []
+    for n in ast.walk(fn):
+        if not isinstance(n, ast.Call):
+            continue
+        f = n.func
+        kind = None
+        if isinstance(f, ast.Name) and f.id == "u":
+            kind = "u"
+        elif isinstance(f, ast.Attribute) and f.attr in ("get_text", "get_list"):
+            kind = f.attr
+        elif isinstance(f, ast.Attribute) and f.attr == "decode":
+            if len(n.args) >= 2 or any(k.arg == "errors" for k in n.keywords):
+                continue                  # explicit error policy (replace / ignore): cannot raise
+            kind = "decode"
+        if kind is None:
+            continue
+        guarded = False
+        cur = n
+        while id(cur) in parents:
+            par = parents[id(cur)]
+            if isinstance(par, ast.Try) and any(cur is b for b in par.body):
+                for h in par.handlers:
+                    names = []
+                    if h.type is None:
+                        names = ["BaseException"]
+                    elif isinstance(h.type, ast.Tuple):
+                        names = [ast.unparse(e).split(".")[-1] for e in h.type.elts]
+                    else:
+                        names = [ast.unparse(h.type).split(".")[-1]]
+                    if not any(x in UNICODE_CATCHERS for x in names):
+                        continue
+                    bad = False
+                    for r in ast.walk(h):
+                        if isinstance(r, ast.Raise):
+                            if r.exc is None:
+                                bad = True
+                            elif not (isinstance(r.exc, ast.Call) and isinstance(r.exc.func, ast.Name)
+                                      and r.exc.func.id in SSH_RAISES):
+                                bad = True
+                    if not bad:
+                        guarded = True
+                    break
+            cur = par
+        sites.append((kind, n.lineno, guarded))
+    return sites
+
+
+def caller_sites(repo, handler_keys):
+    """Decode sites reachable from the public API on the caller's thread."""
+    idx = _functions(repo)
+    roots = []
+    for name, lst in idx.items():
+        for f, c, fn in lst:
+            if c in API_CLASSES and not name.startswith("_") and name != "run":
+                roots.append((f, c, fn))
+    seen = {}
+    todo = list(roots)
+    while todo:
+        f, c, fn = todo.pop()
+        k = (f, c, fn.name)
+        if k in seen:
+            continue
+        seen[k] = fn
+        for callee in _callees(fn):
+            if callee in ("run", "start"):
+                continue                  # the transport thread: covered by the ladder of run()
+            for g in idx.get(callee, []):
+                if (g[0], g[1], g[2].name) in handler_keys:
+                    continue              # message handlers are only invoked by run()
+                todo.append(g)
+    out = []
+    for (f, c, name), fn in sorted(seen.items()):
+        for kind, line, guarded in _decode_sites(fn):
+            out.append({"file": f, "cls": c, "func": name, "kind": kind, "line": line, "guarded": guarded})
+    return out
+
+
 def extract(repo, lenient=False):
     """lenient: used by the harness when the strict extraction failed, so that its oracle can still run."""
     tree = Tree(repo)
@@ -556,7 +719,26 @@ def extract(repo, lenient=False):
             raise
         problems.append(str(e))
         lad = None
-    return {"handlers": hs, "ladder": lad, "problems": problems}
+    hkeys = {(k[0], k[1], meth) for (msg, k, meth, fn) in inventory(tree)}
+    try:
+        guards = session_guards(repo)
+    except Fail as e:
+        if not lenient:
+            raise
+        problems.append(str(e))
+        guards = None
+    try:
+        sites = caller_sites(repo, hkeys)
+    except Fail as e:
+        if not lenient:
+            raise
+        problems.append(str(e))
+        sites = None
+    return {"handlers": hs, "ladder": lad, "problems": problems, "guards": guards, "sites": sites}
+
+
+def _ascii(name):
+    return "[" + "; ".join(str(b) for b in name.encode()) + "]"
 
 
 def _item(i):
@@ -585,12 +767,27 @@ def generate(repo):
     out.append("Definition ladder : list (cclass * bool) := [%s]." % "; ".join(
         "(%s, %s)" % (c, "true" if w else "false") for c, w in ex["ladder"]))
     out.append("")
+    out.append("(* `if <test>: raise SSHException` at the top of public Transport methods, as a function of")
+    out.append("   (self.active, self.initial_kex_done): true = raises *)")
+    out.append("Definition session_guards : list (list Z * (bool -> bool -> bool)) := [")
+    out.append(";\n".join("  (* %s *) (%s, fun active kex_done => %s)" % (n, _ascii(n), e) for n, e in ex["guards"]))
+    out.append("].")
+    out.append("")
+    out.append("(* text decoding of stored peer data on the caller's thread: (function, guarded by a try that turns")
+    out.append("   UnicodeDecodeError into an SSHException) *)")
+    out.append("Definition caller_sites : list (list Z * bool) := [")
+    out.append(";\n".join("  (* %s:%d %s.%s %s *) (%s, %s)" % (x["file"], x["line"], x["cls"], x["func"], x["kind"],
+                                                              _ascii(x["func"]), "true" if x["guarded"] else "false")
+                          for x in ex["sites"]))
+    out.append("].")
+    out.append("")
     out.append("Definition run_handler (c : Z * list Z) : list Z := run_parse_in handlers c.")
     out.append("Definition run_ladder (raw : Z) : list Z := run_surface_in ladder raw.")
     out.append("Definition run_getexc (raw : Z) : list Z := run_getexc_in ladder raw.")
     out.append("Definition run_start (raw : Z) : list Z := run_start_in ladder raw.")
     out.append("Definition run_auth (raw : Z) : list Z := run_auth_in ladder raw.")
     out.append("Definition run_api (c : Z * Z) : list Z := run_api_in ladder c.")
+    out.append("Definition run_guard (c : list Z * (Z * Z)) : list Z := run_guard_in session_guards c.")
     return {"C38_gen.v": "\n".join(out) + "\n"}
 
 
